@@ -39,7 +39,7 @@ CU = 'utils.courier_utils'
 
 
 def run(ctx: Ctx):
-  for r in (r1, r2, r3, r4, r5, r6, r7, r8, r11, r12, r13, r14, r18, r19, r22, r23, r24):
+  for r in (r1, r2, r3, r4, r5, r6, r7, r8, r11, r12, r13, r14, r18, r19, r22, r23, r24, r25, r26):
     ctx.guard(r)
   from mlmverif.props import c15
   from mlmverif.props import c05
@@ -1186,12 +1186,77 @@ def r24(ctx: Ctx):
   ctx.floor(rule, 1, n)
 
 
+def r25(ctx: Ctx):
+  rule = 'R-C06-25'
+  ctx.rule(rule, '"a task whose worker died is retried elsewhere": a submitted task is bound to the client that SENT it. In'
+           ' CourierClient.submit the task handed back carries `worker=self` — not the worker a re-queued task still names'
+           ' (`task.worker or self`): the retried call would be judged by the liveness of the dead worker, failed with a'
+           ' timeout on the next tick and re-queued again, for ever')
+  ci = ctx.repo.cls('utils.courier_utils', 'CourierClient')
+  fi = ci.methods.get('submit')
+  if fi is None:
+    raise AnalysisError(f'{rule}: CourierClient.submit not found')
+  n = 0
+  for r_ in walk_no_nested(fi.node):
+    if not (isinstance(r_, ast.Return) and isinstance(r_.value, ast.Call)):
+      continue
+    kw = kwarg(r_.value, 'worker')
+    if kw is None:
+      continue
+    n += 1
+    what = 'CourierClient.submit: the returned task names the submitting client as its worker'
+    if isinstance(kw, ast.Name) and kw.id == 'self':
+      ctx.ok(rule, fi, what, r_)
+    else:
+      ctx.fail(rule, fi, what,
+               f'`worker={unparse(kw)}`: a task that was re-queued after its worker died keeps naming that worker, so the pool'
+               ' tests the dead worker\'s liveness for the call it has just sent to a healthy one', node=r_)
+  ctx.floor(rule, 1, n)
+
+
+def r26(ctx: Ctx):
+  rule = 'R-C06-26'
+  ctx.rule(rule, '"as long as one worker stays usable ... restarted workers rejoin": the answer to a remote next-batch request is'
+           ' AWAITED (`await asyncio.wrap_future(<state>)`), which passes a cancellation of the abandoned shard attempt on to'
+           ' the in-flight call. The polling loop of async_iterate contains no busy-wait on `<state>.done()`: a call that'
+           ' is only polled stays pending for ever when its worker is killed mid-call (no deadline by default), the worker'
+           ' is charged with it after its restart (`has_capacity` false) and is never offered work again')
+  ci = ctx.repo.cls('utils.courier_utils', 'CourierClient')
+  fi = ci.methods.get('async_iterate')
+  if fi is None:
+    raise AnalysisError(f'{rule}: CourierClient.async_iterate not found')
+  n = 0
+  for lp in ast.walk(fi.node):
+    if not (isinstance(lp, ast.While) and any(isinstance(c, ast.Call) and unparse(c.func).endswith('next_batch_from_generator')
+                                             for c in ast.walk(lp))):
+      continue
+    n += 1
+    busy = [x for x in ast.walk(lp) if isinstance(x, ast.While) and x is not lp and any(
+        isinstance(c, ast.Call) and isinstance(c.func, ast.Attribute) and c.func.attr == 'done' for c in ast.walk(x.test))]
+    awaited = any(isinstance(a, ast.Await) and isinstance(a.value, ast.Call) and unparse(a.value.func).endswith('wrap_future')
+                  for a in ast.walk(lp))
+    what = 'CourierClient.async_iterate: the next-batch answer is awaited through wrap_future, not polled'
+    if busy or not awaited:
+      ctx.fail(rule, fi, what,
+               (f'`while {unparse(busy[0].test)}:` polls the future' if busy else 'the answer is not awaited through asyncio.wrap_future')
+               + ': cancelling the shard attempt no longer cancels the in-flight call — it stays among the pending calls of a'
+               ' worker that was killed mid-call, and the restarted worker never has capacity again', node=(busy[0] if busy else lp))
+    else:
+      ctx.ok(rule, fi, what, lp)
+  ctx.floor(rule, 1, n)
+
+
 from mlmverif.selfcheck import B, OK  # noqa: E402
 
 _W = 'chainables/courier_worker.py'
 _O = 'chainables/orchestrate.py'
 _U = 'utils/courier_utils.py'
 VARIANTS = [
+    B('submit-keeps-the-worker-of-a-requeued-task', 'utils/courier_utils.py',
+      "    return task.set(state=state, worker=self)", "    return task.set(state=state, worker=task.worker or self)", 'R-C06-25'),
+    B('next-batch-answer-polled', 'utils/courier_utils.py',
+      "        output_batch = lazy_fns.maybe_make(\n            await asyncio.wrap_future(output_state)\n        )\n",
+      "        while not output_state.done():\n          if not self.is_alive:\n            raise TimeoutError(f'Async worker disconnected: {self}')\n          await asyncio.sleep(0)\n        output_batch = lazy_fns.maybe_make(output_state.result())\n", 'R-C06-26'),
     OK('next-batch-answer-awaited-through-a-local', 'utils/courier_utils.py',
        "        output_batch = lazy_fns.maybe_make(\n            await asyncio.wrap_future(output_state)\n        )\n",
        "        raw_batch = await asyncio.wrap_future(output_state)\n        output_batch = lazy_fns.maybe_make(raw_batch)\n"),
